@@ -867,88 +867,3 @@ fn h2_blk_body(b: &Blk, ex: &dyn Fn(&Ex) -> bool, blk: &dyn Fn(&Blk) -> bool) ->
         _ => false,
     }
 }
-
-// ---------------------------------------------------------------- finding F26 region
-
-/// does the written form of `e` end with a `)` that the printer adds itself (around the last
-/// operand of a binary or unary operator)?  Follows the tree's right edge the way the text does.
-fn ends_with_added_parenthesis(e: &Ex) -> bool {
-    match e {
-        Ex::Bin(op, _, r) => {
-            let needs = binop(*op).right_needs_parentheses(&to_expr(r));
-            needs || ends_with_added_parenthesis(r)
-        }
-        Ex::Un(_, x) => matches!(&**x, Ex::Bin(op, _, _) if *op != 14) || ends_with_added_parenthesis(x),
-        Ex::IfExp(_, _, _, e) => ends_with_added_parenthesis(e),
-        _ => false,
-    }
-}
-
-fn starts_with_parenthesis(e: &Ex) -> bool {
-    match e {
-        Ex::Paren(_) => true,
-        Ex::Field(p, _) | Ex::Index(p, _) | Ex::Call(p, _, _) => starts_with_parenthesis(p),
-        _ => false,
-    }
-}
-
-fn statement_starts_with_parenthesis(s: &St) -> bool {
-    match s {
-        St::Assign(vars, _) => vars.first().map_or(false, starts_with_parenthesis),
-        St::Compound(_, var, _) => starts_with_parenthesis(var),
-        St::CallSt(c) => starts_with_parenthesis(c),
-        _ => false,
-    }
-}
-
-fn last_expression(s: &St) -> Option<&Ex> {
-    match s {
-        St::Assign(_, v) | St::Local(_, v) | St::LocalT(_, v) => v.last(),
-        St::Compound(_, _, v) => Some(v),
-        St::Repeat(_, c) => Some(c),
-        _ => None,
-    }
-}
-
-/// Finding F26 region: somewhere a statement whose text ends with a printer-added `)` is
-/// followed by a statement starting with `(`, and darklua's `ends_with_prefix` (asked through
-/// the hook, for classification only) does not see a prefix expression there, so no `;` is
-/// written and the two statements fuse into a call.
-pub fn in_f26_region(b: &Blk) -> bool {
-    let here = b.stmts.windows(2).any(|w| {
-        statement_starts_with_parenthesis(&w[1])
-            && last_expression(&w[0]).map_or(false, ends_with_added_parenthesis)
-            && !darklua_core::verif_hooks::ends_with_prefix(&to_statement(&w[0]))
-    });
-    here || {
-        let ex = |e: &Ex| f26_ex(e);
-        let blk = |b: &Blk| in_f26_region(b);
-        h2_blk_body(b, &ex, &blk)
-    }
-}
-
-fn f26_ex(e: &Ex) -> bool {
-    let entries = |t: &[Entry]| {
-        t.iter().any(|e| match e {
-            Entry::Val(v) | Entry::Fld(_, v) => f26_ex(v),
-            Entry::Idx(k, v) => f26_ex(k) || f26_ex(v),
-        })
-    };
-    match e {
-        Ex::Nil | Ex::True | Ex::False | Ex::Varargs | Ex::Str(_) | Ex::Id(_) | Ex::Num(_) => false,
-        Ex::Paren(x) | Ex::Un(_, x) | Ex::Cast(x, _) | Ex::Field(x, _) => f26_ex(x),
-        Ex::Bin(_, l, r) | Ex::Index(l, r) => f26_ex(l) || f26_ex(r),
-        Ex::Call(p, _, a) => {
-            f26_ex(p)
-                || match a {
-                    Args::Tuple(v) => v.iter().any(f26_ex),
-                    Args::Str(_) => false,
-                    Args::Table(t) => entries(t),
-                }
-        }
-        Ex::Func(f) => in_f26_region(&f.body),
-        Ex::Table(t) => entries(t),
-        Ex::IfExp(c, r, br, e) => f26_ex(c) || f26_ex(r) || f26_ex(e) || br.iter().any(|(a, b)| f26_ex(a) || f26_ex(b)),
-    }
-}
-
